@@ -151,13 +151,24 @@ class Run(object):
         if len(self.samples) < limit:
             self.samples.append(case)
 
-    def violation(self, key, witness, desc):
+    def violation(self, key, witness, desc, instance=None):
+        """instance: canonical id of the failing input inside an enumerated
+        (seed-independent) domain, or None for seeded/generated inputs."""
         key = re.sub(r"\s+", "_", key)
         v = self.viol.get(key)
         if v is None:
-            self.viol[key] = {"witness": witness, "desc": desc, "count": 1}
+            v = self.viol[key] = {"witness": witness, "desc": desc, "count": 1, "instances": {}, "uninst": 0}
+            if instance is not None:
+                v["instances"][instance] = (witness, desc)
+            else:
+                v["uninst"] += 1
         else:
             v["count"] += 1
+            if instance is not None:
+                if instance not in v["instances"]:
+                    v["instances"][instance] = (witness, desc) if len(v["instances"]) < 200000 else None
+            else:
+                v["uninst"] += 1
             # keep the smallest witness
             try:
                 if len(json.dumps(witness)) < len(json.dumps(v["witness"])):
@@ -196,25 +207,43 @@ class Run(object):
                 if e["witness"]:
                     path = os.path.join(VERIF, e["witness"])
                     try:
-                        cases.append(json.load(open(path)))
-                        idx.append(i)
+                        doc = json.load(open(path))
                     except Exception as ex:
                         raise HarnessFailure("cannot load witness %s: %s" % (path, ex))
+                    if isinstance(doc, dict) and "instances" in doc:
+                        e["_instances"] = set(doc["instances"])
+                    cases.append(doc.get("case", doc) if isinstance(doc, dict) else doc)
+                    idx.append(i)
             still = {}
-            if cases and replay_fn is not None:
-                res = replay_fn(cases)
-                for i, keys in zip(idx, res):
+            # only findings this run's exploration did not already reproduce need their witness re-executed
+            need = [(i, c) for i, c in zip(idx, cases) if opens[i]["key"] not in self.viol]
+            if need and replay_fn is not None:
+                res = replay_fn([c for _, c in need])
+                for (i, _), keys in zip(need, res):
                     still[i] = opens[i]["key"] in keys
             for i, e in enumerate(opens):
-                reproduced = still.get(i)
-                seen = e["key"] in self.viol
-                if reproduced or (reproduced is None and seen) or (seen and not e["witness"]):
-                    known_lines.append("KNOWN-FINDING: property=%s %s :: %s" % (self.pid, e["key"], e["desc"]))
-                elif seen:
+                if e["key"] in self.viol or still.get(i):
                     known_lines.append("KNOWN-FINDING: property=%s %s :: %s" % (self.pid, e["key"], e["desc"]))
                 else:
                     resolved.append(e["key"])
         new = {k: v for k, v in self.viol.items() if k not in open_keys}
+        # a listed finding that carries an instance catalogue only covers those inputs
+        for k, v in self.viol.items():
+            e = open_keys.get(k)
+            if e is None or not v["instances"]:
+                continue
+            cat = e.get("_instances")
+            if cat is None:
+                continue
+            extra = [i for i in v["instances"] if i not in cat]
+            if extra:
+                extra.sort()
+                w = v["instances"][extra[0]]
+                new[k + "#uncatalogued-input"] = {
+                    "witness": w[0] if w else v["witness"], "desc": "%d input(s) outside the catalogued finding, e.g. %s: %s"
+                    % (len(extra), extra[0], w[1] if w else v["desc"]), "count": len(extra)}
+        if getattr(self, "catalog", False):
+            self.write_catalog()
         wall = time.time() - self.t0
         # harness verdicts
         harness_fail = []
@@ -282,6 +311,35 @@ class Run(object):
                 print("HARNESS-FAILURE: " + h, file=sys.stderr)
             return 2
         return 0
+
+
+def safe_name(key):
+    n = re.sub(r"[^A-Za-z0-9_.+-]+", "_", key)[:80]
+    return n + "-" + hashlib.sha1(key.encode()).hexdigest()[:8]
+
+
+def _write_catalog(self):
+    """Developer tool (--catalog): propose known-findings entries.  Never run
+    by the registered commands and never touches known-findings.txt."""
+    d = os.path.join(VERIF, ".work", "catalog", self.pid)
+    os.makedirs(d, exist_ok=True)
+    lines = []
+    for k in sorted(self.viol):
+        v = self.viol[k]
+        doc = {"case": v["witness"], "desc": v["desc"], "count": v["count"]}
+        if v["instances"]:
+            doc["instances"] = sorted(v["instances"])
+        fn = safe_name(k) + ".json"
+        with open(os.path.join(d, fn), "w") as f:
+            json.dump(doc, f, default=str)
+        lines.append("open: property=%s key=%s witness=findings/%s/%s :: [n=%d] %s" %
+                     (self.pid, k, self.pid, fn, v["count"], str(v["desc"])[:160].replace("\n", " ")))
+    with open(os.path.join(d, "PROPOSED.txt"), "w") as f:
+        f.write("\n".join(lines) + "\n")
+    print("catalog: %d keys written to %s" % (len(lines), d))
+
+
+Run.write_catalog = _write_catalog
 
 
 def write_tmp(dirpath, name, data):
